@@ -27,7 +27,13 @@ def run_case(rep, rng, ci, dev, cfg, model_records):
     names = [t.name for t in dev.terminals]
     base = [rng.choice([1.0, 2.5, 0.1, 7.0]) for _ in range(nterm - 1)]
     base.append(-sum(base))
-    if cfg["td_current"]:
+    if cfg["td_current"] == "pulse":
+        T3 = cfg["solve_time"] / 3.0
+
+        def currents(t, base=base, names=names):
+            s = 1.0 if t < T3 else (0.0 if t < 2 * T3 else 0.5)     # switched off exactly, then on again
+            return {nm: s * b for nm, b in zip(names, base)}
+    elif cfg["td_current"]:
         def currents(t, base=base, names=names):
             s = 1.0 + 0.5 * math.sin(3.0 * t)
             return {nm: s * b for nm, b in zip(names, base)}
@@ -39,10 +45,14 @@ def run_case(rep, rng, ci, dev, cfg, model_records):
         A = 0.3
     else:
         A = 0.0
-    info = dev.terminal_info()
     em = dev.mesh.edge_mesh
     xi = dev.coherence_length.magnitude
     blen = em.edge_lengths[em.boundary_edge_indices]
+    # terminal membership recomputed here from the polygons and the CURRENT mesh (not through the device's own
+    # terminal_info(), so that a stale answer of that method is visible)
+    from types import SimpleNamespace
+    bpos = xi * em.centers[em.boundary_edge_indices]
+    info = [SimpleNamespace(name=t.name, boundary_edge_indices=t.contains_points(bpos, index=True)) for t in dev.terminals]
     Jsc = j_scale(dev, cfg["current_units"])
     worst = {"cont": 0.0, "term": 0.0}
     nupd = [0]
@@ -145,6 +155,8 @@ def run(rep: common.Report, tier: str, seed: int, replay=None) -> int:
         dict(terminals=2, holes=0, field="static", td_current=False, screening=True, adaptive=True, current_units="uA", terminal_psi=0.0, solve_time=0.1),
         dict(terminals=3, holes=1, field="zero", td_current=False, screening=False, adaptive=True, current_units="mA", terminal_psi=0.0, solve_time=0.3),
     ]
+    plans.append(dict(terminals=2, holes=0, field="zero", td_current="pulse", screening=False, adaptive=False,
+                      current_units="uA", terminal_psi=0.0, solve_time=0.3))
     if tier == "thorough":
         plans = plans * 4
     texts, recs_all = [], []
@@ -164,6 +176,14 @@ def run(rep: common.Report, tier: str, seed: int, replay=None) -> int:
             rep.not_shown("correspondence(step): model evaluation failed", {**case, "log": out[-1200:]})
             continue
         ndis += stepcorr.compare(rep, r, out, case)
+    # history on ONE device object: mesh, solve, re-mesh with a different boundary discretisation, solve again
+    devh = meshes.make_device(rng, holes=0, terminals=2, max_edge_length=1.2)
+    cfgh = dict(terminals=2, holes=0, field="static", td_current=False, screening=False, adaptive=True,
+                current_units="uA", terminal_psi=0.0, solve_time=0.15)
+    run_case(rep, rng, 100, devh, cfgh, model_records=False)
+    devh.film = devh.film.resample(len(devh.film.points) + 37)
+    devh.make_mesh(max_edge_length=0.7, smooth=2)
+    run_case(rep, rng, 101, devh, cfgh, model_records=False)
     dev4 = meshes.make_device(rng, holes=0, terminals=4, max_edge_length=1.6)
     acceptance(rep, rng, dev4, 120 if tier == "quick" else 1500)
     rep.coverage.update({"runs": len(plans), "step_records_compared_with_model": len(recs_all),
